@@ -442,13 +442,21 @@ Proof. intros E. apply blogic_mono. intros n Hn. rewrite <- (boolvar_dom s s' n 
 (* a queued constraint is either arithmetic or an assertion of a formula over Boolean variables *)
 Definition agood (s : lst) (c : constr) : Prop :=
   c_assert c = true /\ c_cmp c = Eq /\ (exists q, c_rhs c = Num (Fin q) /\ Q2R q = 1) /\ blogic s (c_lhs c) = true /\ incl (lvars (c_lhs c)) (ukeys s).
-Definition qgood (s : lst) (c : constr) : Prop := cgood (ukeys s) c \/ agood s c.
+(* ... or a comparison whose sides are arithmetic or formulas (a formula compared with a constant is normalised by the compiler) *)
+Definition sgood (s : lst) (e : exp) : Prop :=
+  (plainA e = true /\ incl (xvars e) (ukeys s)) \/ (blogic s e = true /\ incl (lvars e) (ukeys s)).
+Definition ngood (s : lst) (c : constr) : Prop := c_assert c = false /\ sgood s (c_lhs c) /\ sgood s (c_rhs c).
+Definition qgood (s : lst) (c : constr) : Prop := cgood (ukeys s) c \/ agood s c \/ ngood s c.
 Lemma ukeys_dom s s' : s_dom s = s_dom s' -> ukeys s = ukeys s'.
 Proof. intros E. unfold ukeys. rewrite E. reflexivity. Qed.
 Lemma qgood_dom s s' c : s_dom s = s_dom s' -> qgood s c -> qgood s' c.
 Proof.
-  intros E [G|[A1 [A2 [A3 [A4 A5]]]]]; [left; rewrite <- (ukeys_dom s s' E); exact G|right].
-  repeat split; try assumption; [exact (blogic_dom s s' _ E A4)|rewrite <- (ukeys_dom s s' E); exact A5].
+  intros E.
+  assert (Sg : forall e, sgood s e -> sgood s' e).
+  { intros e [[P I]|[B I]]; [left|right]; (split; [|rewrite <- (ukeys_dom s s' E); exact I]); [exact P|exact (blogic_dom s s' _ E B)]. }
+  intros [G|[[A1 [A2 [A3 [A4 A5]]]]|[N1 [N2 N3]]]]; [left; rewrite <- (ukeys_dom s s' E); exact G|right; left|right; right].
+  - repeat split; try assumption; [exact (blogic_dom s s' _ E A4)|rewrite <- (ukeys_dom s s' E); exact A5].
+  - split; [exact N1|]. split; apply Sg; assumption.
 Qed.
 Record INV (s : lst) : Prop := mkINV {
   inv_nd : NoDup (akeys s);
@@ -480,11 +488,16 @@ Lemma dom_sat_agree D rho sigma : (forall n, In n (map fst D) -> rho n = sigma n
 Proof.
   intros A H n d Hin. rewrite <- A; [apply (H n d Hin)|]. apply in_map_iff. exists (n, d). split; [reflexivity|exact Hin].
 Qed.
+Lemma ev_sgood_agree s rho sigma e : sgood s e -> (forall n, In n (ukeys s) -> rho n = sigma n) -> ev rho e = ev sigma e.
+Proof.
+  intros [[P I]|[B I]] A; [apply ev_agree; [apply plainA_okexp; exact P|]|apply (ev_agree_logic s); [exact B|]]; intros n Hn; apply A, I, Hn.
+Qed.
 Lemma sat_qgood_agree s rho sigma c : qgood s c -> (forall n, In n (ukeys s) -> rho n = sigma n) -> sat_constr rho c -> sat_constr sigma c.
 Proof.
-  intros [G|[_ [_ [[q [Er _]] [Bl Il]]]]] A H; [exact (sat_constr_agree _ _ _ _ G A H)|].
-  destruct H as [l [r [El [Err Hc]]]]. exists l, r. rewrite <- (ev_agree_logic s rho sigma _ Bl) by (intros n Hn; apply A, Il, Hn).
-  rewrite Er in *. unfold ev in *. cbn [evg] in *. auto.
+  intros [G|[[_ [_ [[q [Er _]] [Bl Il]]]]|[_ [S1 S2]]]] A H; [exact (sat_constr_agree _ _ _ _ G A H)| |].
+  - destruct H as [l [r [El [Err Hc]]]]. exists l, r. rewrite <- (ev_agree_logic s rho sigma _ Bl) by (intros n Hn; apply A, Il, Hn).
+    rewrite Er in *. unfold ev in *. cbn [evg] in *. auto.
+  - destruct H as [l [r [El [Err Hc]]]]. exists l, r. rewrite <- (ev_sgood_agree s rho sigma _ S1 A), <- (ev_sgood_agree s rho sigma _ S2 A). auto.
 Qed.
 (* a well-formed state means the same thing to two assignments that agree on its names *)
 Lemma st_sat_agree s rho sigma : INV s -> (forall n, In n (akeys s) -> rho n = sigma n) -> st_sat s rho -> st_sat s sigma.
@@ -553,10 +566,14 @@ Proof.
 Qed.
 Lemma qgood_grows s s' c : grows s s' -> qgood s c -> qgood s' c.
 Proof.
-  intros G [Gc|[A1 [A2 [A3 [A4 A5]]]]]; [left; eapply cgood_mono; [apply grows_keys; exact G|exact Gc]|right].
-  repeat split; try assumption.
-  - apply (blogic_mono s s'); [|exact A4]. intros k Hk. destruct G as [E _]. exact (boolvar_ext s s' k E Hk).
-  - intros k Hk. apply (grows_keys _ _ G). apply A5. exact Hk.
+  intros G.
+  assert (Bm : forall e, blogic s e = true -> blogic s' e = true).
+  { apply (blogic_mono s s'). intros k Hk. destruct G as [E _]. exact (boolvar_ext s s' k E Hk). }
+  assert (Sg : forall e, sgood s e -> sgood s' e).
+  { intros e [[P I]|[B I]]; [left|right]; (split; [|intros k Hk; apply (grows_keys _ _ G); apply I; exact Hk]); [exact P|exact (Bm _ B)]. }
+  intros [Gc|[[A1 [A2 [A3 [A4 A5]]]]|[N1 [N2 N3]]]]; [left; eapply cgood_mono; [apply grows_keys; exact G|exact Gc]|right; left|right; right].
+  - repeat split; try assumption; [exact (Bm _ A4)|intros k Hk; apply (grows_keys _ _ G); apply A5; exact Hk].
+  - split; [exact N1|]. split; apply Sg; assumption.
 Qed.
 Lemma INV_decl s n t : INV s -> al_mem (s_dom s) n = false -> INV (decl s n t).
 Proof.
@@ -2395,6 +2412,48 @@ Proof.
     apply Hrow. rewrite V. apply row_fwd. exact Hab.
 Qed.
 
+(* the compiler's own comparison of constants is the comparison of their values *)
+Lemma comparison_holds_spec a c k : comparison_holds (Fin a) c (Fin k) = true <-> cmp_holds c (Q2R a) (Q2R k).
+Proof.
+  destruct c; cbn [comparison_holds cmp_holds]; unfold xq_geb, xq_gtb, xq_leb; cbn [xq_ltb xq_eqb].
+  - split; [intros H; apply orb_true_iff in H as [H|H]; [apply q_ltb_true in H; lra|apply q_eqb_true in H; lra]|].
+    intros H. destruct (q_ltb a k) eqn:L; [reflexivity|]. apply q_ltb_false in L. cbn [orb].
+    destruct (q_eqb a k) eqn:E; [reflexivity|]. apply q_eqb_false in E. lra.
+  - split; [intros H; apply orb_true_iff in H as [H|H]; [apply q_ltb_true in H; lra|apply q_eqb_true in H; lra]|].
+    intros H. destruct (q_ltb k a) eqn:L; [reflexivity|]. apply q_ltb_false in L. cbn [orb].
+    destruct (q_eqb k a) eqn:E; [reflexivity|]. apply q_eqb_false in E. lra.
+  - split; [intros H; apply q_eqb_true in H; exact H|]. intros H. destruct (q_eqb a k) eqn:E; [reflexivity|]. apply q_eqb_false in E. contradiction.
+  - split; [intros H; apply q_ltb_true in H; exact H|]. intros H. destruct (q_ltb a k) eqn:L; [reflexivity|]. apply q_ltb_false in L. lra.
+  - split; [intros H; apply q_ltb_true in H; lra|]. intros H. destruct (q_ltb k a) eqn:L; [reflexivity|]. apply q_ltb_false in L. lra.
+Qed.
+Lemma cmp_holds_rev c x y : cmp_holds c x y <-> cmp_holds (reversed_comparison c) y x.
+Proof. destruct c; cbn; split; intros; lra. Qed.
+
+(* what the logic-constraint test decided: which side is the formula, against which constant, under which comparison *)
+Definition norm_go (e : exp) (c : cmp) (k : xq) : normalized :=
+  match e with
+  | Num v => if comparison_holds v c k then NTautology else NContradiction
+  | _ => match comparison_holds (Fin 0%Q) c k, comparison_holds (Fin 1%Q) c k with
+         | false, true => NAssertion e true
+         | true, false => NAssertion e false
+         | true, true => NTautology
+         | false, false => NContradiction
+         end
+  end.
+Lemma try_normalize_inv st l c r n : try_normalize_logic_constraint st l c r = Some n ->
+  exists e c' k, n = norm_go e c' k /\ ((r = Num k /\ e = l /\ c' = c) \/ (l = Num k /\ e = r /\ c' = reversed_comparison c /\ is_num r = false)).
+Proof.
+  unfold try_normalize_logic_constraint. cbv zeta. intros H.
+  destruct r as [k| | | | | | | | | | | |].
+  1: { (* the constant is on the right *)
+    destruct (is_logic_value st l) eqn:L; [|discriminate]. exists l, c, k. split; [|left; auto].
+    unfold norm_go. destruct l; repeat match type of H with context [comparison_holds ?a0 ?b0 ?c0] => destruct (comparison_holds a0 b0 c0) end; inversion H; reflexivity. }
+  all: destruct l as [k| | | | | | | | | | | |]; try discriminate;
+       match type of H with context [is_logic_value ?sx ?rr] => destruct (is_logic_value sx rr) eqn:L; [|discriminate]; exists rr, (reversed_comparison c), k end;
+       (split; [|right; auto]); unfold norm_go;
+       repeat match type of H with context [comparison_holds ?a0 ?b0 ?c0] => destruct (comparison_holds a0 b0 c0) end; inversion H; reflexivity.
+Qed.
+
 Definition step_ok (c : constr) (s : lst) : bool :=
   if c_assert c then
     match fs_pure (c_lhs c) with
@@ -2405,8 +2464,11 @@ Definition step_ok (c : constr) (s : lst) : bool :=
   match fs_pure (c_lhs c), fs_pure (c_rhs c) with
   | Some l, Some r =>
       match try_normalize_logic_constraint s l (c_cmp c) r with
-      | Some _ => false
-      | None => emit_trace l r s
+      | None => plainA (c_lhs c) && plainA (c_rhs c) && emit_trace l r s
+      | Some NTautology => let e := if is_num r then l else r in is_num e || blogic s e
+      | Some NContradiction => (let e := if is_num r then l else r in is_num e || blogic s e) && emit_trace (Num (Fin 0%Q)) (Num (Fin 1%Q)) s
+      | Some (NAssertion e must) =>
+          negb (is_num e) && match tla_row s e must with Some (A, k, B) => emit_trace A B s | None => false end
       end
   | _, _ => false
   end.
@@ -2417,60 +2479,142 @@ Proof.
   intros Hn H. destruct e; try discriminate; cbn [lower_assert]; unfold bind; rewrite H; reflexivity.
 Qed.
 
+(* an assertion `e must` that try_lower_affine turns into one row *)
+Lemma assertion_ok e must name s u s' A k B : INV s -> is_num e = false -> tla_row s e must = Some (A, k, B) -> emit_trace A B s = true ->
+  lower_logic_assertion e must name s = inr (u, s') ->
+  INV s' /\ ext s s' /\
+  (forall sigma, st_sat s' sigma -> st_sat s sigma /\ ev sigma e = Some (bnR must)) /\
+  (forall rho, st_sat s rho -> ev rho e = Some (bnR must) -> exists sigma, (forall n, In n (akeys s) -> sigma n = rho n) /\ st_sat s' sigma).
+Proof.
+  intros I Nn ER SO H. unfold lower_logic_assertion in H.
+  pose proof (tla_as_row e must name s) as TA. rewrite ER in TA. unfold bind in TA.
+  destruct (emit_constraint A k B name s) as [er|[u1 s1]] eqn:EM.
+  { exfalso. replace (exp_depth e + 2)%nat with (S (exp_depth e + 1)) in H by lia.
+    destruct e; try discriminate; cbn [lower_assert] in H; unfold bind in H; rewrite TA in H; discriminate. }
+  unfold ret in TA. replace (exp_depth e + 2)%nat with (S (exp_depth e + 1)) in H by lia.
+  rewrite (lower_assert_handled _ e must name s s1 Nn TA) in H. inversion H; subst s1; clear H.
+  destruct (tla_row_sem s e must A k B ER) as [Pa [Pb Sem]].
+  assert (Tot : forall sigma, exists a b, evT sigma A = Some a /\ ev sigma A = Some a /\ evT sigma B = Some b /\ ev sigma B = Some b).
+  { intros sigma. destruct (plainA_total sigma _ Pa) as [a [Ta Ea]]. destruct (plainA_total sigma _ Pb) as [b [Tb Eb]]. exists a, b. auto. }
+  destruct (emit_ok A k B name s u1 s' I Tot SO EM) as [I' [E' [S' C']]].
+  split; [exact I'|]. split; [exact E'|]. split.
+  - intros sigma Ss. destruct (S' sigma Ss) as [Sb [a [b [Ea [Eb Hab]]]]]. split; [exact Sb|].
+    destruct (Sem sigma (proj2 (proj2 Sb))) as [bv [a1 [b1 [_ [El [Ea1 [Eb1 Hc]]]]]]]. rewrite Ea in Ea1. rewrite Eb in Eb1. inversion Ea1; inversion Eb1; subst a1 b1.
+    rewrite El. apply Hc in Hab. subst bv. reflexivity.
+  - intros rho Ss Hv. destruct (Tot rho) as [a [b [_ [Ea [_ Eb]]]]]. apply (C' rho a b Ss Ea Eb).
+    destruct (Sem rho (proj2 (proj2 Ss))) as [bv [a1 [b1 [_ [El [Ea1 [Eb1 Hc]]]]]]]. rewrite Ea in Ea1. rewrite Eb in Eb1. inversion Ea1; inversion Eb1; subst a1 b1.
+    apply Hc. rewrite El in Hv. destruct bv, must; cbn in Hv; inversion Hv; try reflexivity; lra.
+Qed.
+
+Lemma sgood_total s sigma e : sgood s e -> dom_sat (s_dom s) sigma -> exists a, evT sigma e = Some a /\ ev sigma e = Some a.
+Proof.
+  intros [[P _]|[B _]] D; [exact (plainA_total sigma e P)|]. destruct (blogic_total s sigma D e B) as [b [T E]]. eauto.
+Qed.
+
 Lemma process_ok c s u s' : INV s -> qgood s c -> step_ok c s = true -> process_constraint c s = inr (u, s') ->
   INV s' /\ ext s s' /\
   (forall sigma, st_sat s' sigma -> st_sat s sigma /\ sat_constr sigma c) /\
   (forall rho, st_sat s rho -> sat_constr rho c -> exists sigma, (forall n, In n (akeys s) -> sigma n = rho n) /\ st_sat s' sigma).
 Proof.
-  intros I [[NA [Pl [Pr [Il Ir]]]]|[NA [Ecmp [[q1 [Erhs Eq1]] [Bl Il]]]]] SO H; unfold step_ok in SO; rewrite NA in SO.
-  - (* arithmetic *)
-    destruct (fs_pure (c_lhs c)) as [l|] eqn:Fl; [|discriminate]. destruct (fs_pure (c_rhs c)) as [r|] eqn:Fr; [|discriminate].
-    destruct (try_normalize_logic_constraint s l (c_cmp c) r) eqn:TN; [discriminate|].
-    unfold process_constraint, bind in H. rewrite flatten_simplify_eq, Fl in H. rewrite flatten_simplify_eq, Fr in H.
-    rewrite NA in H. unfold get_st in H. rewrite TN in H.
-    assert (Tot : forall sigma, exists a b, evT sigma l = Some a /\ ev sigma l = Some a /\ evT sigma r = Some b /\ ev sigma r = Some b).
-    { intros sigma. destruct (plainA_total sigma _ Pl) as [a [Ta _]]. destruct (plainA_total sigma _ Pr) as [b [Tb _]].
-      destruct (fs_pure_sound sigma _ _ _ Fl Ta) as [Tl El]. destruct (fs_pure_sound sigma _ _ _ Fr Tb) as [Tr Er]. exists a, b. auto. }
-    assert (Same : forall sigma a b, ev sigma l = Some a -> ev sigma r = Some b -> ev sigma (c_lhs c) = Some a /\ ev sigma (c_rhs c) = Some b).
-    { intros sigma a b Ea Eb. destruct (plainA_total sigma _ Pl) as [a' [Ta Ea']]. destruct (plainA_total sigma _ Pr) as [b' [Tb Eb']].
-      destruct (fs_pure_sound sigma _ _ _ Fl Ta) as [_ El]. destruct (fs_pure_sound sigma _ _ _ Fr Tb) as [_ Er]. split; congruence. }
-    destruct (emit_ok l (c_cmp c) r (c_name c) s u s' I Tot SO H) as [I' [E' [S' C']]].
-    split; [exact I'|]. split; [exact E'|]. split.
-    + intros sigma Ss. destruct (S' sigma Ss) as [Sb [a [b [Ea [Eb Hab]]]]]. split; [exact Sb|].
-      destruct (Same sigma a b Ea Eb) as [Xa Xb]. exists a, b. auto.
-    + intros rho Ss [a [b [Ea [Eb Hab]]]]. destruct (Tot rho) as [a' [b' [_ [Ea' [_ Eb']]]]].
-      destruct (Same rho a' b' Ea' Eb') as [Xa Xb]. rewrite Ea in Xa. rewrite Eb in Xb. inversion Xa; inversion Xb; subst a' b'.
-      exact (C' rho a b Ss Ea' Eb' Hab).
-  - (* an assertion lowered to one affine row *)
+  intros I G SO H.
+  assert (Kind : (c_assert c = true /\ agood s c) \/ (c_assert c = false /\ sgood s (c_lhs c) /\ sgood s (c_rhs c))).
+  { destruct G as [[NA [Pl [Pr [Il Ir]]]]|[Ga|[NA [S1 S2]]]]; [right|left; split; [exact (proj1 Ga)|exact Ga]|right; auto].
+    split; [exact NA|]. split; left; auto. }
+  clear G. unfold step_ok in SO. destruct Kind as [[NA [_ [Ecmp [[q1 [Erhs Eq1]] [Bl Il]]]]]|[NA [S1 S2]]]; rewrite NA in SO.
+  - (* an assertion *)
     destruct (fs_pure (c_lhs c)) as [l|] eqn:Fl; [|discriminate]. apply andb_true_iff in SO as [Nn SO]. apply negb_true_iff in Nn.
     destruct (tla_row s l true) as [[[A k] B]|] eqn:ER; [|discriminate].
     unfold process_constraint, bind in H. rewrite flatten_simplify_eq, Fl in H. rewrite flatten_simplify_eq in H.
-    destruct (fs_pure (c_rhs c)) as [r|]; [|discriminate]. rewrite NA in H. unfold lower_logic_assertion in H.
-    pose proof (tla_as_row l true (c_name c) s) as TA. rewrite ER in TA. unfold bind in TA.
-    destruct (emit_constraint A k B (c_name c) s) as [er|[u1 s1]] eqn:EM.
-    { exfalso. replace (exp_depth l + 2)%nat with (S (exp_depth l + 1)) in H by lia.
-      destruct l; try discriminate; cbn [lower_assert] in H; unfold bind in H; rewrite TA in H; discriminate. }
-    unfold ret in TA. replace (exp_depth l + 2)%nat with (S (exp_depth l + 1)) in H by lia.
-    rewrite (lower_assert_handled _ l true (c_name c) s s1 Nn TA) in H. inversion H; subst s1; clear H.
-    destruct (tla_row_sem s l true A k B ER) as [Pa [Pb Sem]].
-    assert (Tot : forall sigma, exists a b, evT sigma A = Some a /\ ev sigma A = Some a /\ evT sigma B = Some b /\ ev sigma B = Some b).
-    { intros sigma. destruct (plainA_total sigma _ Pa) as [a [Ta Ea]]. destruct (plainA_total sigma _ Pb) as [b [Tb Eb]]. exists a, b. auto. }
-    destruct (emit_ok A k B (c_name c) s u1 s' I Tot SO EM) as [I' [E' [S' C']]].
-    assert (Truth : forall sigma, dom_sat (s_dom s) sigma -> forall a0 b0, ev sigma A = Some a0 -> ev sigma B = Some b0 ->
-              (cmp_holds k a0 b0 <-> sat_constr sigma c)).
-    { intros sigma D a0 b0 Ea Eb. destruct (Sem sigma D) as [b [a1 [b1 [Tl [El [Ea1 [Eb1 Hc]]]]]]].
-      rewrite Ea in Ea1. rewrite Eb in Eb1. inversion Ea1; inversion Eb1; subst a1 b1.
-      destruct (blogic_total s sigma D _ Bl) as [b' [Tc Ec]]. destruct (fs_pure_sound sigma _ _ _ Fl Tc) as [_ El'].
-      rewrite El in El'. assert (Eb' : b = b') by (destruct b, b'; cbn in El'; inversion El'; try reflexivity; lra). subst b'.
-      rewrite Hc. unfold sat_constr. rewrite Ecmp, Erhs, Ec. cbn [cmp_holds]. split.
-      - intros ->. exists 1, 1. unfold ev. cbn [evg bnR]. rewrite Eq1. auto.
-      - intros [l0 [r0 [E1 [E2 E3]]]]. unfold ev in E2. cbn [evg] in E2. rewrite Eq1 in E2. injection E1 as <-. injection E2 as <-.
-        destruct b; [reflexivity|cbn in E3; lra]. }
+    destruct (fs_pure (c_rhs c)) as [r|]; [|discriminate]. rewrite NA in H.
+    destruct (assertion_ok l true (c_name c) s u s' A k B I Nn ER SO H) as [I' [E' [S' C']]].
+    assert (Truth : forall sigma, dom_sat (s_dom s) sigma -> (ev sigma l = Some (bnR true) <-> sat_constr sigma c)).
+    { intros sigma D. destruct (blogic_total s sigma D _ Bl) as [b' [Tc Ec]]. destruct (fs_pure_sound sigma _ _ _ Fl Tc) as [_ El'].
+      rewrite El'. unfold sat_constr. rewrite Ecmp, Erhs, Ec. cbn [cmp_holds]. split.
+      - intros Hb. exists 1, 1. unfold ev. cbn [evg bnR]. rewrite Eq1. inversion Hb as [Hb']. rewrite Hb'. auto.
+      - intros [l0 [r0 [E1 [E2 E3]]]]. unfold ev in E2. cbn [evg] in E2. rewrite Eq1 in E2. injection E1 as <-. injection E2 as <-. rewrite E3. reflexivity. }
     split; [exact I'|]. split; [exact E'|]. split.
-    + intros sigma Ss. destruct (S' sigma Ss) as [Sb [a [b [Ea [Eb Hab]]]]]. split; [exact Sb|].
-      apply (Truth sigma (proj2 (proj2 Sb)) a b Ea Eb). exact Hab.
-    + intros rho Ss Sc. destruct (Tot rho) as [a [b [_ [Ea [_ Eb]]]]].
-      apply (C' rho a b Ss Ea Eb). apply (Truth rho (proj2 (proj2 Ss)) a b Ea Eb). exact Sc.
+    + intros sigma Ss. destruct (S' sigma Ss) as [Sb Hl]. split; [exact Sb|]. apply (Truth sigma (proj2 (proj2 Sb))). exact Hl.
+    + intros rho Ss Sc. apply (C' rho Ss). apply (Truth rho (proj2 (proj2 Ss))). exact Sc.
+  - (* a comparison *)
+    destruct (fs_pure (c_lhs c)) as [l|] eqn:Fl; [|discriminate]. destruct (fs_pure (c_rhs c)) as [r|] eqn:Fr; [|discriminate].
+    unfold process_constraint, bind in H. rewrite flatten_simplify_eq, Fl in H. rewrite flatten_simplify_eq, Fr in H.
+    rewrite NA in H. unfold get_st in H.
+    assert (Same : forall sigma, dom_sat (s_dom s) sigma -> exists a b, ev sigma (c_lhs c) = Some a /\ ev sigma (c_rhs c) = Some b /\
+              evT sigma l = Some a /\ ev sigma l = Some a /\ evT sigma r = Some b /\ ev sigma r = Some b).
+    { intros sigma D. destruct (sgood_total s sigma _ S1 D) as [a [Ta Ea]]. destruct (sgood_total s sigma _ S2 D) as [b [Tb Eb]].
+      destruct (fs_pure_sound sigma _ _ _ Fl Ta) as [Tl El]. destruct (fs_pure_sound sigma _ _ _ Fr Tb) as [Tr Er]. exists a, b. auto 8. }
+    assert (Sat : forall sigma, dom_sat (s_dom s) sigma -> forall a b, ev sigma l = Some a -> ev sigma r = Some b -> (sat_constr sigma c <-> cmp_holds (c_cmp c) a b)).
+    { intros sigma D a b Ea Eb. destruct (Same sigma D) as [a' [b' [Xa [Xb [_ [Ya [_ Yb]]]]]]]. rewrite Ea in Ya. rewrite Eb in Yb. inversion Ya; inversion Yb; subst a' b'.
+      unfold sat_constr. split; [intros [l0 [r0 [E1 [E2 E3]]]]; congruence|intros Hc; exists a, b; auto]. }
+    destruct (try_normalize_logic_constraint s l (c_cmp c) r) as [n|] eqn:TN.
+    + (* normalised by the logic-constraint test *)
+      destruct (try_normalize_inv s l (c_cmp c) r n TN) as [e [c' [k [En Side]]]].
+      assert (Ee : e = if is_num r then l else r).
+      { destruct Side as [[Er [Ee _]]|[_ [Ee [_ Nr]]]]; [rewrite Er; exact Ee|rewrite Nr; exact Ee]. }
+      assert (Red : forall sigma, dom_sat (s_dom s) sigma -> exists ve qk, ev sigma e = Some ve /\ k = Fin qk /\ (sat_constr sigma c <-> cmp_holds c' ve (Q2R qk))).
+      { intros sigma D. destruct (Same sigma D) as [a [b [_ [_ [_ [Ea [_ Eb]]]]]]]. pose proof (Sat sigma D a b Ea Eb) as Hs.
+        destruct Side as [[Er [El Ec]]|[El [Er [Ec _]]]]; subst e c'.
+        - rewrite Er in Eb. apply ev_Num_inv in Eb as [qk [Ek ->]]. exists a, qk. split; [exact Ea|]. split; [exact Ek|exact Hs].
+        - rewrite El in Ea. apply ev_Num_inv in Ea as [qk [Ek ->]]. exists b, qk. split; [exact Eb|]. split; [exact Ek|].
+          rewrite Hs. apply cmp_holds_rev. }
+      (* what the verdict of the test means *)
+      assert (Verdict : forall sigma, dom_sat (s_dom s) sigma ->
+                match n with
+                | NTautology => (is_num e || blogic s e = true) -> sat_constr sigma c
+                | NContradiction => (is_num e || blogic s e = true) -> ~ sat_constr sigma c
+                | NAssertion e' must => e' = e /\ is_num e = false /\ forall bv, ev sigma e = Some (bnR bv) -> (sat_constr sigma c <-> bv = must)
+                end).
+      { intros sigma D. destruct (Red sigma D) as [ve [qk [Eve [Ek Hs]]]]. subst k. rewrite En. unfold norm_go.
+        assert (H0 : comparison_holds (Fin 0%Q) c' (Fin qk) = true <-> cmp_holds c' 0 (Q2R qk)) by (rewrite comparison_holds_spec, Q2R_0; reflexivity).
+        assert (H1 : comparison_holds (Fin 1%Q) c' (Fin qk) = true <-> cmp_holds c' 1 (Q2R qk)) by (rewrite comparison_holds_spec, Q2R_1; reflexivity).
+        assert (BinCase : is_num e = false -> (is_num e || blogic s e = true) -> exists bv, ve = bnR bv).
+        { intros Nn Hb. rewrite Nn in Hb. cbn [orb] in Hb. destruct (blogic_total s sigma D e Hb) as [bv [_ E]]. rewrite Eve in E. inversion E. eauto. }
+        destruct e as [v| | | | | | | | | | | |];
+          try (destruct (comparison_holds (Fin 0%Q) c' (Fin qk)) eqn:C0, (comparison_holds (Fin 1%Q) c' (Fin qk)) eqn:C1;
+               [intros Hb; destruct (BinCase eq_refl Hb) as [bv ->]; apply Hs; destruct bv; [apply H1|apply H0]; reflexivity
+               |split; [reflexivity|]; split; [reflexivity|]; intros bv Ebv; rewrite Eve in Ebv; inversion Ebv; subst ve; rewrite Hs;
+                 destruct bv; cbn [bnR]; split; intros Hx; try reflexivity; try discriminate; [apply H1 in Hx; congruence|apply H0; reflexivity]
+               |split; [reflexivity|]; split; [reflexivity|]; intros bv Ebv; rewrite Eve in Ebv; inversion Ebv; subst ve; rewrite Hs;
+                 destruct bv; cbn [bnR]; split; intros Hx; try reflexivity; try discriminate; [apply H1; reflexivity|apply H0 in Hx; congruence]
+               |intros Hb; destruct (BinCase eq_refl Hb) as [bv ->]; intros Hx; apply Hs in Hx; destruct bv; [apply H1 in Hx|apply H0 in Hx]; congruence]).
+        (* the formula is a constant *)
+        apply ev_Num_inv in Eve as [qv [-> ->]].
+        destruct (comparison_holds (Fin qv) c' (Fin qk)) eqn:Cv.
+        - intros _. apply Hs. apply comparison_holds_spec. exact Cv.
+        - intros _ Hx. apply Hs in Hx. apply comparison_holds_spec in Hx. congruence. }
+      destruct n as [e' must| |].
+      * (* an assertion about the formula *)
+        apply andb_true_iff in SO as [Nn SO]. apply negb_true_iff in Nn.
+        destruct (tla_row s e' must) as [[[A k0] B]|] eqn:ER; [|discriminate].
+        destruct (assertion_ok e' must (c_name c) s u s' A k0 B I Nn ER SO H) as [I' [E' [S' C']]].
+        destruct (tla_row_sem s e' must A k0 B ER) as [_ [_ Sem]].
+        split; [exact I'|]. split; [exact E'|]. split.
+        -- intros sigma Ss. destruct (S' sigma Ss) as [Sb Hl]. split; [exact Sb|].
+           destruct (Verdict sigma (proj2 (proj2 Sb))) as [<- [_ Hv]]. apply (Hv must Hl). reflexivity.
+        -- intros rho Ss Sc. apply (C' rho Ss). destruct (Verdict rho (proj2 (proj2 Ss))) as [<- [_ Hv]].
+           destruct (Sem rho (proj2 (proj2 Ss))) as [bv [_ [_ [_ [El _]]]]]. rewrite El. apply (Hv bv El) in Sc. subst bv. reflexivity.
+      * (* always true: nothing is emitted *)
+        rewrite <- Ee in SO. inversion H; subst s'. split; [exact I|]. split; [apply ext_refl|]. split.
+        -- intros sigma Ss. split; [exact Ss|]. exact (Verdict sigma (proj2 (proj2 Ss)) SO).
+        -- intros rho Ss _. exists rho. split; [reflexivity|exact Ss].
+      * (* never true: the row 0 = 1 *)
+        apply andb_true_iff in SO as [SO ET]. rewrite <- Ee in SO.
+        assert (Tot : forall sigma, exists a b, evT sigma (Num (Fin 0%Q)) = Some a /\ ev sigma (Num (Fin 0%Q)) = Some a /\ evT sigma (Num (Fin 1%Q)) = Some b /\ ev sigma (Num (Fin 1%Q)) = Some b).
+        { intros sigma. exists (Q2R 0), (Q2R 1). repeat split; reflexivity. }
+        destruct (emit_ok _ Eq _ (c_name c) s u s' I Tot ET H) as [I' [E' [S' C']]].
+        split; [exact I'|]. split; [exact E'|]. split.
+        -- intros sigma Ss. destruct (S' sigma Ss) as [_ [a [b [Ea [Eb Hab]]]]]. exfalso. unfold ev in Ea, Eb. cbn [evg] in Ea, Eb.
+           inversion Ea; inversion Eb; subst a b. cbn [cmp_holds] in Hab. rewrite Q2R_0, Q2R_1 in Hab. lra.
+        -- intros rho Ss Sc. exfalso. exact (Verdict rho (proj2 (proj2 Ss)) SO Sc).
+    + (* the arithmetic path *)
+      apply andb_true_iff in SO as [SO ET]. apply andb_true_iff in SO as [Pl Pr].
+      assert (Tot : forall sigma, exists a b, evT sigma l = Some a /\ ev sigma l = Some a /\ evT sigma r = Some b /\ ev sigma r = Some b).
+      { intros sigma. destruct (plainA_total sigma _ Pl) as [a [Ta _]]. destruct (plainA_total sigma _ Pr) as [b [Tb _]].
+        destruct (fs_pure_sound sigma _ _ _ Fl Ta) as [Tl El]. destruct (fs_pure_sound sigma _ _ _ Fr Tb) as [Tr Er]. exists a, b. auto. }
+      destruct (emit_ok l (c_cmp c) r (c_name c) s u s' I Tot ET H) as [I' [E' [S' C']]].
+      split; [exact I'|]. split; [exact E'|]. split.
+      * intros sigma Ss. destruct (S' sigma Ss) as [Sb [a [b [Ea [Eb Hab]]]]]. split; [exact Sb|]. apply (Sat sigma (proj2 (proj2 Sb)) a b Ea Eb). exact Hab.
+      * intros rho Ss Sc. destruct (Tot rho) as [a [b [_ [Ea [_ Eb]]]]]. apply (C' rho a b Ss Ea Eb). apply (Sat rho (proj2 (proj2 Ss)) a b Ea Eb). exact Sc.
 Qed.
 
 (* ---------- the main loop *)
@@ -2884,15 +3028,24 @@ Qed.
 Definition agoodb (s : lst) (c : constr) : bool :=
   c_assert c && cmp_eqb (c_cmp c) Eq && (match c_rhs c with Num (Fin q) => q_eqb q 1 | _ => false end) &&
   blogic s (c_lhs c) && forallb (set_mem (ukeys s)) (lvars (c_lhs c)).
-Definition qgoodb (s : lst) (c : constr) : bool := cgoodb (ukeys s) c || agoodb s c.
+Definition sgoodb (s : lst) (e : exp) : bool :=
+  (plainA e && forallb (set_mem (ukeys s)) (xvars e)) || (blogic s e && forallb (set_mem (ukeys s)) (lvars e)).
+Definition ngoodb (s : lst) (c : constr) : bool := negb (c_assert c) && sgoodb s (c_lhs c) && sgoodb s (c_rhs c).
+Definition qgoodb (s : lst) (c : constr) : bool := cgoodb (ukeys s) c || agoodb s c || ngoodb s c.
+Lemma sgoodb_sound s e : sgoodb s e = true -> sgood s e.
+Proof.
+  unfold sgoodb. intros H. apply orb_true_iff in H as [H|H]; apply andb_true_iff in H as [H1 H2]; [left|right]; (split; [exact H1|apply forallb_mem_incl; exact H2]).
+Qed.
 Lemma qgoodb_sound s c : qgoodb s c = true -> qgood s c.
 Proof.
-  unfold qgoodb. intros H. apply orb_true_iff in H as [H|H]; [left; apply cgoodb_sound; exact H|right].
-  unfold agoodb in H. apply andb_true_iff in H as [H H5]. apply andb_true_iff in H as [H H4]. apply andb_true_iff in H as [H H3].
-  apply andb_true_iff in H as [H1 H2]. split; [exact H1|]. split; [destruct (c_cmp c); try discriminate; reflexivity|].
-  split; [|split; [exact H4|apply forallb_mem_incl; exact H5]].
-  destruct (c_rhs c) as [x| | | | | | | | | | | |]; try discriminate. destruct x as [q| | |]; try discriminate. exists q. split; [reflexivity|].
-  apply q_eqb_true in H3. rewrite H3. apply Q2R_1.
+  unfold qgoodb. intros H. apply orb_true_iff in H as [H|H]; [apply orb_true_iff in H as [H|H]; [left; apply cgoodb_sound; exact H|right; left]|right; right].
+  - unfold agoodb in H. apply andb_true_iff in H as [H H5]. apply andb_true_iff in H as [H H4]. apply andb_true_iff in H as [H H3].
+    apply andb_true_iff in H as [H1 H2]. split; [exact H1|]. split; [destruct (c_cmp c); try discriminate; reflexivity|].
+    split; [|split; [exact H4|apply forallb_mem_incl; exact H5]].
+    destruct (c_rhs c) as [x| | | | | | | | | | | |]; try discriminate. destruct x as [q| | |]; try discriminate. exists q. split; [reflexivity|].
+    apply q_eqb_true in H3. rewrite H3. apply Q2R_1.
+  - unfold ngoodb in H. apply andb_true_iff in H as [H H3]. apply andb_true_iff in H as [H1 H2]. apply negb_true_iff in H1.
+    split; [exact H1|]. split; apply sgoodb_sound; assumption.
 Qed.
 (* a rational member of a range *)
 Definition xq_le_Qb (a : xq) (q : Q) : bool := match a with Fin p => q_leb p q | NInf => true | _ => false end.
@@ -3019,4 +3172,15 @@ Definition m5 : model :=
      mkConstr "" (BinOp Add (Var "x") (Var "a")) Ge (Num (Fin 1%Q)) false]
     [("a", mkDV TBoolean true); ("b", mkDV TBoolean true); ("c", mkDV TBoolean true); ("x", mkDV (TReal (Fin (-2)%Q) (Fin 3%Q)) true)].
 Example m5_in_fragment : abs_modelb m5 = true.
+Proof. vm_compute. reflexivity. Qed.
+
+(* comparisons of a formula with a constant, normalised by the logic-constraint test: an assertion, a tautology, a contradiction *)
+Definition m6 : model :=
+  mkModel DMax (BinOp Add (Var "a") (BinOp Add (Var "b") (Var "x")))
+    [mkConstr "" (Or [Var "a"; Var "b"]) Ge (Num (Fin 1%Q)) false;
+     mkConstr "" (Num (Fin (1 # 2)%Q)) Ge (And [Var "a"; Var "b"]) false;
+     mkConstr "" (Var "b") Le (Num (Fin 1%Q)) false;
+     mkConstr "" (BinOp Add (Var "x") (Var "a")) Le (Num (Fin 3%Q)) false]
+    [("a", mkDV TBoolean true); ("b", mkDV TBoolean true); ("x", mkDV (TReal (Fin 0%Q) (Fin 5%Q)) true)].
+Example m6_in_fragment : abs_modelb m6 = true.
 Proof. vm_compute. reflexivity. Qed.
